@@ -13,6 +13,10 @@
 //!   rintr <i,i,..>                 read-call indices that return ErrorKind::Interrupted
 //!   rfail <offset>                 hard read error once <offset> bytes were delivered
 //!   wfail <offset>                 hard stdout write error once <offset> bytes were accepted
+//!   ronce                          the read error is transient: one call fails, later calls deliver the rest of the input
+//!   link <name> <target>           symbolic link in dir (target as given)
+//!   lockfile <name>                the driver holds an exclusive flock on that file of dir while jawk runs
+//!   (a file whose name ends in '/' is an empty directory)
 //!   wonce                          the write error is transient: one call fails, later calls are accepted (and counted)
 //!   wshort <n,n,..>                max bytes accepted per stdout write call, cycling
 //!   wintr <i,i,..>                 stdout write-call indices returning Interrupted
@@ -78,6 +82,9 @@ struct Case {
     rfail: Option<usize>,
     wfail: Option<usize>,
     wonce: bool,
+    ronce: bool,
+    links: Vec<(Vec<u8>, Vec<u8>)>,
+    lockfiles: Vec<Vec<u8>>,
     wshort: Vec<usize>,
     wintr: Vec<usize>,
     efail: Option<usize>,
@@ -122,6 +129,7 @@ struct MonReader {
     sched: Vec<usize>,
     intr: Vec<usize>,
     fail: Option<usize>,
+    once: bool,
     stats: Arc<Mutex<ReadStats>>,
 }
 
@@ -132,13 +140,15 @@ impl Read for MonReader {
         st.calls += 1;
         if st.errored {
             st.reads_after_error += 1;
-            return Err(io::Error::new(fault_kind(self.fail.unwrap_or(0), true), "injected read fault (repeated)"));
+            if !self.once {
+                return Err(io::Error::new(fault_kind(self.fail.unwrap_or(0), true), "injected read fault (repeated)"));
+            }
         }
         if self.intr.contains(&call) {
             return Err(io::Error::new(io::ErrorKind::Interrupted, "injected EINTR"));
         }
         if let Some(k) = self.fail {
-            if st.pulled >= k {
+            if st.pulled >= k && !st.errored {
                 st.errored = true;
                 return Err(io::Error::new(fault_kind(k, true), "injected read fault"));
             }
@@ -175,7 +185,9 @@ impl Read for MonReader {
             n = n.min(self.sched[call % self.sched.len()].max(1));
         }
         if let Some(k) = self.fail {
-            n = n.min(k - st.pulled);
+            if !st.errored {
+                n = n.min(k - st.pulled);
+            }
         }
         buf[..n].copy_from_slice(&self.data[self.pos..self.pos + n]);
         self.pos += n;
@@ -317,6 +329,15 @@ fn feed_fifo(path: std::path::PathBuf, e: Endless, written: Arc<AtomicU64>, open
     });
 }
 
+/// Bytes this process has asked the kernel to read so far (read(2) and friends, all descriptors): the difference around a
+/// run is what jawk read from files and FIFOs (the instrumented stdin is memory).
+fn proc_rchar() -> u64 {
+    std::fs::read_to_string("/proc/self/io")
+        .ok()
+        .and_then(|t| t.lines().find_map(|l| l.strip_prefix("rchar: ").and_then(|v| v.trim().parse().ok())))
+        .unwrap_or(0)
+}
+
 fn run_case(case: &Case) -> Obs {
     let mut lines = Vec::new();
     // scratch files
@@ -332,7 +353,20 @@ fn run_case(case: &Case) -> Obs {
             if let Some(parent) = p.parent() {
                 let _ = std::fs::create_dir_all(parent);
             }
+            if name.ends_with(b"/") {
+                let _ = std::fs::create_dir_all(&p);
+                continue;
+            }
             std::fs::write(&p, content).expect("write scratch file");
+            created.push(p);
+        }
+        for (name, target) in &case.links {
+            let p = dir.join(String::from_utf8_lossy(name).to_string());
+            if let Some(parent) = p.parent() {
+                let _ = std::fs::create_dir_all(parent);
+            }
+            let _ = std::fs::remove_file(&p);
+            std::os::unix::fs::symlink(String::from_utf8_lossy(target).to_string(), &p).expect("symlink");
             created.push(p);
         }
         for name in &case.fifos {
@@ -377,12 +411,24 @@ fn run_case(case: &Case) -> Obs {
     let ostats = Arc::new(Mutex::new(WriteStats::default()));
     let estats = Arc::new(Mutex::new(WriteStats::default()));
     let factory_calls = Arc::new(AtomicU64::new(0));
+    let rchar = Arc::new(AtomicU64::new(0));
+    // exclusive advisory locks held by "somebody else" (another open file description) for the whole run
+    let mut held_locks = Vec::new();
+    if let Some(dir) = &dir {
+        for name in &case.lockfiles {
+            if let Ok(f) = std::fs::OpenOptions::new().read(true).write(true).open(dir.join(String::from_utf8_lossy(name).to_string())) {
+                let _ = f.lock();
+                held_locks.push(f);
+            }
+        }
+    }
 
     let (tx, rx) = mpsc::channel::<(String, String, String)>();
     let started = Instant::now();
     {
         let case = case.clone();
         let (rstats, ostats, estats, factory_calls) = (rstats.clone(), ostats.clone(), estats.clone(), factory_calls.clone());
+        let rchar = rchar.clone();
         let builder = std::thread::Builder::new().stack_size(8 * 1024 * 1024).name("case".into());
         builder
             .spawn(move || {
@@ -431,10 +477,14 @@ fn run_case(case: &Case) -> Obs {
                             sched: c2.rsched.clone(),
                             intr: c2.rintr.clone(),
                             fail: c2.rfail,
+                            once: c2.ronce,
                             stats: rs.clone(),
                         }
                     });
-                    match jawk::go(cli, stdout, stderr, factory) {
+                    let r0 = proc_rchar();
+                    let res = jawk::go(cli, stdout, stderr, factory);
+                    rchar.store(proc_rchar().saturating_sub(r0), Ordering::SeqCst);
+                    match res {
                         Ok(()) => ("ok".to_string(), String::new()),
                         Err(e) => ("err".to_string(), format!("{e}")),
                     }
@@ -496,6 +546,8 @@ fn run_case(case: &Case) -> Obs {
             r.reads_after_eof
         ));
     }
+    lines.push(format!("rchar {}", rchar.load(Ordering::SeqCst)));
+    drop(held_locks);
     if !hooks.is_empty() {
         lines.push(format!("hooks {hooks}"));
     }
@@ -585,6 +637,9 @@ fn serve() {
             "rfail" => case.rfail = Some(rest[0].parse().unwrap()),
             "wfail" => case.wfail = Some(rest[0].parse().unwrap()),
             "wonce" => case.wonce = true,
+            "ronce" => case.ronce = true,
+            "link" => case.links.push((unhex(rest[0]), unhex(rest[1]))),
+            "lockfile" => case.lockfiles.push(unhex(rest[0])),
             "wshort" => case.wshort = ints(rest[0]),
             "wintr" => case.wintr = ints(rest[0]),
             "efail" => case.efail = Some(rest[0].parse().unwrap()),
